@@ -110,8 +110,8 @@ Theorem queued_fees_are_ceilings :
 Proof. exact RelayProofs.queued_fees_are_ceilings. Qed.
 Print Assumptions queued_fees_are_ceilings.
 
-(** 5c. The fee computation does not panic for sane settings (non-negative multipliers, products
-    below 2^64). *)
+(** 5c. The fee computation returns no error for sane settings (non-negative multipliers, products
+    below 2^64); [None] is an error return since the C09 fix, nothing here panics. *)
 Theorem fees_defined :
   forall mult cf sf gas,
   0 <= mult -> 0 <= cf -> 0 <= sf -> 0 <= gas < 2 ^ 64 ->
@@ -120,3 +120,13 @@ Theorem fees_defined :
   exists f, fees_for mult cf sf gas = Some f.
 Proof. exact fees_for_total. Qed.
 Print Assumptions fees_defined.
+
+(** 5d. A multiplicator accepted on submission (UpsertRelayerFee: 0 < m <= 10^6) can be applied to
+    every estimate up to (2^64-1)/10^6 gas, with fund rates of at most 100 %. *)
+Theorem accepted_multiplier_fees_defined :
+  forall mult cf sf gas,
+  valid_multiplier mult = true -> 0 <= cf <= prec -> 0 <= sf <= prec ->
+  0 <= gas -> gas * 1000000 <= 2 ^ 64 - 1 ->
+  exists f, fees_for mult cf sf gas = Some f.
+Proof. exact valid_multiplier_fees_defined. Qed.
+Print Assumptions accepted_multiplier_fees_defined.
